@@ -77,6 +77,30 @@ func copyDefault(src reflect.Value, t reflect.Type) reflect.Value {
 			}
 		}
 		return cp
+	case reflect.Array:
+		// an array holds its elements by value, what they point to is copied element by element
+		cp := reflect.New(t).Elem()
+		for i := 0; i < src.Len(); i++ {
+			cp.Index(i).Set(copyDefault(src.Index(i), t.Elem()))
+		}
+		return cp
+	case reflect.Map:
+		if src.IsNil() {
+			return reflect.Zero(t)
+		}
+		cp := reflect.MakeMapWithSize(t, src.Len())
+		iter := src.MapRange()
+		for iter.Next() {
+			cp.SetMapIndex(iter.Key(), copyDefault(iter.Value(), t.Elem()))
+		}
+		return cp
+	case reflect.Interface:
+		if src.IsNil() {
+			return reflect.Zero(t)
+		}
+		cp := reflect.New(t).Elem()
+		cp.Set(copyDefault(src.Elem(), src.Elem().Type()))
+		return cp
 	default:
 		return src
 	}
